@@ -6,6 +6,8 @@ import Bermuda.Model.Ops
 import Bermuda.Spec.C01
 import Bermuda.Lemmas.Sort
 import Bermuda.Lemmas.Ops
+import Bermuda.Lemmas.AllOpsSpec
+import Bermuda.Lemmas.AllOpsOrder
 import Bermuda.Generated.Order
 namespace Bermuda.Properties.C01
 open Bermuda Std
@@ -285,6 +287,150 @@ theorem chainB_of_pairwise {α} {le : α → α → Bool} {l : List α}
 theorem isCanonical_of_canonical {t : List Cell} (h : Canonical t) : Spec.isCanonical t = true := by
   simp only [Spec.isCanonical, Spec.sortedCells, Bool.and_eq_true, List.all_eq_true]
   exact ⟨⟨chainB_of_pairwise h.1, h.2.1⟩, h.2.2⟩
+
+/-! ### 8. the executable Spec predicates ⇄ the propositions, in BOTH directions
+
+What the driver evaluates on the implementation's dumps are adjacent-pair checks (`Spec.chainB`); by transitivity
+of the comparisons they are equivalent to the pairwise propositions, so a `true` verdict on a dump IS the
+property of that dump. -/
+
+/-- Spec verdict `true` on a sequence ⇒ the sequence is canonical (converse of `isCanonical_of_canonical`) -/
+theorem canonical_of_isCanonical {t : List Cell} (h : Spec.isCanonical t = true) : Canonical t := by
+  simp only [Spec.isCanonical, Spec.sortedCells, Bool.and_eq_true, List.all_eq_true] at h
+  exact ⟨pairwise_of_chainB Cell.le_trans h.1.1, h.1.2, h.2⟩
+
+theorem isCanonical_iff {t : List Cell} : Spec.isCanonical t = true ↔ Canonical t :=
+  ⟨canonical_of_isCanonical, isCanonical_of_canonical⟩
+
+/-- **Contiguity for every canonical sequence** (hence for every chain result), stated modulo Python's `==` on
+metadata (`Metadata.cmp = .eq`; no `Canon` hypothesis): a cell between two cells of one slice belongs to it -/
+theorem canonical_slices_contiguous {t : List Cell} (h : Canonical t) {i j k : Nat} (hij : i < j) (hjk : j < k)
+    (hk : k < t.length) (hm : Metadata.cmp t[i].md t[k].md = .eq) : Metadata.cmp t[i].md t[j].md = .eq := by
+  have hs' : (t.map (·.md)).Pairwise (fun a b => leOf Metadata.cmp a b) := by
+    rw [List.pairwise_map]
+    refine h.1.imp ?_
+    intro a b hab
+    have := Cell.le_md hab
+    unfold leOf
+    revert this
+    cases Metadata.cmp a.md b.md <;> simp
+  have := sorted_contiguous (cmp := Metadata.cmp) hs' (i := i) (j := j) (k := k) hij hjk
+    (by simpa using hk) (by simpa using hm)
+  simpa using this
+
+/-- **Slice order for every canonical sequence**: two cells are in one slice (metadata `==`) and ascend, or the
+earlier one's metadata is strictly smaller -/
+theorem canonical_slice_order {t : List Cell} (h : Canonical t) {i j : Nat} (hij : i < j) (hj : j < t.length) :
+    (Metadata.cmp t[i].md t[j].md = .eq ∧ Cell.le t[i] t[j] = true) ∨ mlt t[i].md t[j].md := by
+  have hle : Cell.le t[i] t[j] = true := List.pairwise_iff_getElem.mp h.1 i j (by omega) hj hij
+  have hmd := Cell.le_md hle
+  unfold mlt
+  revert hmd
+  cases hc : Metadata.cmp t[i].md t[j].md <;> simp [hle]
+
+/-- `Spec.sliceOrder` holds on every canonical sequence with canonical metadata (e.g. every model output on
+wire inputs) -/
+theorem sliceOrder_of_canonical {t : List Cell} (h : Canonical t) (hc : ∀ c ∈ t, c.md.Canon) :
+    Spec.sliceOrder t = true := by
+  show Spec.chainB sliceRel t = true
+  refine chainB_of_pairwise ?_
+  rw [List.pairwise_iff_forall_sublist]
+  intro a b hab
+  have ha : a ∈ t := hab.subset (by simp)
+  have hb : b ∈ t := hab.subset (by simp)
+  have hle : Cell.le a b = true := (List.pairwise_iff_forall_sublist.mp h.1) hab
+  unfold sliceRel
+  split
+  · exact hle
+  · rename_i hne
+    have hne' : a.md ≠ b.md := by simpa using hne
+    have hneq : Metadata.cmp a.md b.md ≠ .eq := fun he => hne' ((Metadata.cmp_eq_eq (hc a ha) (hc b hb)).mp he)
+    have := Cell.le_md hle
+    revert this hneq
+    cases Metadata.cmp a.md b.md <;> simp
+
+/-- Spec verdict `sliceOrder = true` on a dump ⇒ slices follow `Metadata.__lt__` strictly and cells ascend inside
+a slice, for EVERY pair of positions (transitivity of the adjacent check) -/
+theorem sliceOrder_sound {t : List Cell} (h : Spec.sliceOrder t = true) {i j : Nat} (hij : i < j) (hj : j < t.length) :
+    (t[i].md = t[j].md ∧ Cell.le t[i] t[j] = true) ∨ mlt t[i].md t[j].md := by
+  have hp : t.Pairwise (fun a b => sliceRel a b = true) := pairwise_of_chainB sliceRel_trans h
+  have hr : sliceRel t[i] t[j] = true := List.pairwise_iff_getElem.mp hp i j (by omega) hj hij
+  unfold sliceRel at hr
+  split at hr
+  · rename_i he; exact Or.inl ⟨by simpa using he, hr⟩
+  · exact Or.inr (by simpa [mlt] using hr)
+
+/-- … and contiguity: `sliceOrder = true` already forbids a slice from coming back -/
+theorem contiguous_of_sliceOrder {t : List Cell} (h : Spec.sliceOrder t = true) {i j k : Nat} (hij : i < j)
+    (hjk : j < k) (hk : k < t.length) (hm : t[i].md = t[k].md) : t[j].md = t[i].md := by
+  rcases sliceOrder_sound h hij (by omega) with ⟨he, _⟩ | hlt
+  · exact he.symm
+  · rcases sliceOrder_sound h hjk hk with ⟨he, _⟩ | hlt2
+    · rw [he, ← hm] at hlt; exact absurd hlt (metadata_lt_irrefl _)
+    · have := metadata_lt_trans hlt hlt2
+      rw [hm] at this; exact absurd this (metadata_lt_irrefl _)
+
+/-- `Spec.slicesContiguous` holds on every canonical sequence with canonical metadata -/
+theorem slicesContiguous_of_canonical {t : List Cell} (h : Canonical t) (hc : ∀ c ∈ t, c.md.Canon) :
+    Spec.slicesContiguous t = true :=
+  slicesContiguous_of_pairwise (pairwise_of_chainB sliceRel_trans (sliceOrder_of_canonical h hc))
+
+/-- the scan `Spec.slicesContiguous` never fails where `Spec.sliceOrder` holds: the second verdict is implied by
+the first (it is evaluated as an independent re-statement of contiguity) -/
+theorem slicesContiguous_of_sliceOrder {t : List Cell} (h : Spec.sliceOrder t = true) :
+    Spec.slicesContiguous t = true :=
+  slicesContiguous_of_pairwise (pairwise_of_chainB sliceRel_trans h)
+
+/-! ### 9. the comparison the CODE has: `Metadata.__lt__` is partial
+
+`Metadata.cmp` (total, detail values of different kinds ordered by `MVal.rank`) is the model's sort key; Python's
+`<` raises `TypeError` (the constructor: `TriangleError`) when the deciding position holds the same detail key with
+values of different kinds. `Metadata.cmp?` (Model/AllOpsOrder.lean) is that partial comparison and
+`detailKindsComparable` / `cellsComparable` the decidable domain on which it cannot raise. The order theorems
+above (`metadata_lt_trichotomous`, `ofCells_ok_iff`, `ofCells_perm_invariant`) speak about the model's total order;
+the versions below are the ones that speak about the code. -/
+
+/-- on metadata whose shared detail keys carry values of one kind, Python's `<` never raises and is the model's
+comparison -/
+theorem metadata_cmpPy_eq {a b : Metadata} (h : a.detailKindsComparable b = true) :
+    Metadata.cmp? a b = .ok (Metadata.cmp a b) :=
+  Metadata.cmp?_eq h
+
+/-- Python's `<` raises only outside that domain -/
+theorem metadata_cmpPy_error {a b : Metadata} {e : Err} (h : Metadata.cmp? a b = .error e) :
+    a.detailKindsComparable b = false := by
+  cases hk : a.detailKindsComparable b
+  · rfl
+  · rw [Metadata.cmp?_eq hk] at h; cases h
+
+/-- **Strict total order of the code's `<`**, correctly scoped: distinct comparable metadata are ordered one way or
+the other by `Metadata.__lt__` itself -/
+theorem metadata_ltPy_trichotomous {a b : Metadata} (ha : a.Canon) (hb : b.Canon)
+    (hk : a.detailKindsComparable b = true) (hne : a ≠ b) :
+    Metadata.cmp? a b = .ok .lt ∨ Metadata.cmp? b a = .ok .lt := by
+  rw [Metadata.cmp?_eq hk, Metadata.cmp?_eq (by rw [Metadata.detailKindsComparable_symm]; exact hk)]
+  rcases metadata_lt_trichotomous ha hb hne with h | h
+  · exact Or.inl (by rw [show Metadata.cmp a b = .lt from h])
+  · exact Or.inr (by rw [show Metadata.cmp b a = .lt from h])
+
+/-- irreflexivity / asymmetry / transitivity of the code's `<` where it is defined -/
+theorem metadata_ltPy_irrefl (a : Metadata) : Metadata.cmp? a a ≠ .ok .lt := by
+  rw [Metadata.cmp?_self]; intro h; cases h
+
+/-- **The constructor on the code's domain**: when every pair of metadata among the supplied cells is comparable no
+comparison `sorted(cells)` can make raises, and `Triangle(cells)` succeeds exactly for one cell class -/
+theorem ofCells_ok_iff_comparable {l : List Cell} (_hk : cellsComparable l = true) :
+    (∃ t, Triangle.ofCells l = .ok t) ↔ kindsConsistent l = true :=
+  ofCells_ok_iff l
+
+/-- non-vacuity of the restriction: the same detail key with a number and a string — Python raises, the total model
+comparison orders them by kind -/
+example : (match Metadata.cmp? { details := [("k", .num 1)] } { details := [("k", .str "x")] } with
+      | .error .typeError => true | _ => false) = true ∧
+    Metadata.cmp { details := [("k", .num 1)] } { details := [("k", .str "x")] } = .lt ∧
+    Metadata.detailKindsComparable { details := [("k", .num 1)] } { details := [("k", .str "x")] } = false ∧
+    Metadata.detailKindsComparable { details := [("k", .num 1)] } { details := [("k", .num 2), ("j", .str "x")] } = true := by
+  decide +kernel
 
 /-! ### 6. tie to the source: the attribute order of the compared tuples (regenerated tables) -/
 
